@@ -1,7 +1,7 @@
 """
 Bounded stand-in (labelled bounded): power-flow solutions, a short trajectory and the eigenvalues of a stock case agree across the
 interchangeable sparse back ends (klu, umfpack; spsolve for power flow and time domain), with in-place and rebuilt accumulation, and
-with the one-shot entry point; a line outage between two power flows on the same System (pattern change) gives the solution of a
+with the one-shot entry point, and with the honest Newton variant through a line trip; a line outage between two power flows on the same System (pattern change) gives the solution of a
 fresh System with that outage.
 """
 
@@ -16,11 +16,11 @@ def run():
     case = andes.get_case('kundur/kundur_full.xlsx')
     n = 0
 
-    def go(lib, ipadd=1, linsolve=0, eig=False):
+    def go(lib, ipadd=1, linsolve=0, eig=False, honest=0):
         with contextlib.redirect_stdout(io.StringIO()), contextlib.redirect_stderr(io.StringIO()):
             # the solver object of a routine is built from its configuration at construction: pass the choice as options
             opts = ['System.ipadd=%d' % ipadd] + ['%s.sparselib=%s' % (r, lib) for r in ('PFlow', 'TDS', 'EIG')] + \
-                ['%s.linsolve=%d' % (r, linsolve) for r in ('PFlow', 'TDS', 'EIG')]
+                ['%s.linsolve=%d' % (r, linsolve) for r in ('PFlow', 'TDS', 'EIG')] + ['TDS.honest=%d' % honest]
             ss = andes.load(case, default_config=True, no_output=True, config_option=opts)
             used = {r.solver.sparselib for r in (ss.PFlow, ss.TDS, ss.EIG)}
             if used != {lib} or ss.config.ipadd != ipadd:
@@ -49,6 +49,19 @@ def run():
             return n, dict(what, observed='differs from klu: power flow %.2e, trajectory end x %.2e, y %.2e' % tuple(d))
         if eig and (r[4].shape != ref[4].shape or np.max(np.abs(r[4] - ref[4])) > 1e-5):
             return n, dict(what, observed='eigenvalues differ from klu by %.2e' % float(np.max(np.abs(r[4] - ref[4]))))
+    # the honest Newton variant (Jacobian rebuilt in every iteration) through the line trip at 2 s, on every back end
+    ref_h = go('klu', honest=1)
+    if not ref_h[0]:
+        return n, {'observed': 'honest-Newton reference run (klu) failed'}
+    for lib in ('umfpack', 'spsolve'):
+        n += 1
+        r = go(lib, honest=1)
+        what = {'sparselib': lib, 'TDS.honest': 1}
+        if not r[0]:
+            return n, dict(what, observed='run with the honest Newton method failed (klu completes)')
+        d = [float(np.max(np.abs(a - b))) for a, b in zip(r[1:4], ref_h[1:4])]
+        if d[0] > 1e-8 or max(d[1:]) > 1e-6:
+            return n, dict(what, observed='differs from klu: power flow %.2e, trajectory end x %.2e, y %.2e' % tuple(d))
     # pattern change between two solves on one System
     for lib in ('klu', 'umfpack'):
         n += 1
